@@ -12,6 +12,7 @@ import CtyModel.Generated.ConsFns
 import CtyModel.Lemmas.SetFnsTie
 import CtyModel.Lemmas.d06Cons
 import CtyModel.Lemmas.StdOblBase
+import CtyModel.Lemmas.TyEq
 set_option linter.unusedSimpArgs false
 set_option linter.unusedVariables false
 namespace CtyModel
@@ -569,6 +570,118 @@ theorem ObjectVal_order_counterexample :
       | .ok ⟨.map .string, .smap ["é"] [.s "2"]⟩, .ok ⟨.map .string, .smap ["é"] [.s "1"]⟩ => true
       | _, _ => false) = true := by
   decide
+
+/-! ### the element-type loop of `ListVal` / `MapVal` / `SetVal` does not depend on the order of the values -/
+
+theorem isDynTy_iff (t : Ty) : Gocty.isDynTy t = true ↔ t = .dyn := by
+  cases t <;> simp [Gocty.isDynTy]
+
+/-- the types that take part in the element-type computation -/
+def nonDyn (ws : List Value) : List Ty := (ws.map (·.ty)).filter fun t => !Gocty.isDynTy t
+
+theorem mem_nonDyn {ws : List Value} {t : Ty} (h : t ∈ nonDyn ws) : ∃ w ∈ ws, w.ty = t := by
+  simp only [nonDyn, List.mem_filter, List.mem_map] at h
+  exact h.1
+
+/-- with a fixed (non-placeholder) element type: every later non-placeholder type must equal it -/
+theorem elemTypeOf_fixed (acc : Ty) (ha : Gocty.isDynTy acc = false) : ∀ ws : List Value,
+    Gocty.elemTypeOf acc ws =
+      if (nonDyn ws).all (fun t => Ty.equals acc t) then .ok acc else .panic "inconsistent element types"
+  | [] => by simp [Gocty.elemTypeOf, nonDyn]
+  | w :: ws => by
+    have ih := elemTypeOf_fixed acc ha ws
+    simp only [Gocty.elemTypeOf, ha, Bool.false_eq_true, if_false, nonDyn, List.map_cons, List.filter_cons]
+    cases hd : Gocty.isDynTy w.ty
+    · simp only [Bool.not_false, Bool.true_and, if_true, List.all_cons]
+      cases he : Ty.equals acc w.ty
+      · simp
+      · simpa [nonDyn] using ih
+    · simpa [nonDyn] using ih
+
+theorem elemTypeOf_dyn : ∀ ws : List Value,
+    Gocty.elemTypeOf .dyn ws = match nonDyn ws with
+      | [] => .ok .dyn
+      | t :: rest => if rest.all (fun s => Ty.equals t s) then .ok t else .panic "inconsistent element types"
+  | [] => by simp [Gocty.elemTypeOf, nonDyn]
+  | w :: ws => by
+    have h0 : Gocty.isDynTy Ty.dyn = true := rfl
+    simp only [Gocty.elemTypeOf, h0, if_true, nonDyn, List.map_cons, List.filter_cons]
+    cases hd : Gocty.isDynTy w.ty
+    · simp only [Bool.not_false, if_true]
+      exact elemTypeOf_fixed w.ty hd ws
+    · have : w.ty = .dyn := (isDynTy_iff _).mp hd
+      simp only [Bool.not_true, Bool.false_eq_true, if_false]
+      rw [this]
+      exact elemTypeOf_dyn ws
+
+/-- the outcome of the element-type loop does not depend on the order of the values -/
+theorem elemTypeOf_perm {ws ws' : List Value} (hp : ws.Perm ws') (hw : ∀ w ∈ ws, w.ty.wf = true) :
+    Gocty.elemTypeOf .dyn ws = Gocty.elemTypeOf .dyn ws' := by
+  rw [elemTypeOf_dyn ws, elemTypeOf_dyn ws']
+  have hnd : (nonDyn ws).Perm (nonDyn ws') := (hp.map _).filter _
+  have hwf : ∀ t ∈ nonDyn ws, t.wf = true := by
+    intro t ht; obtain ⟨w, hw', rfl⟩ := mem_nonDyn ht; exact hw w hw'
+  revert hnd hwf
+  generalize nonDyn ws = l, nonDyn ws' = l'
+  intro hnd hwf
+  have hwf' : ∀ t ∈ l', t.wf = true := fun t ht => hwf t (hnd.mem_iff.mpr ht)
+  -- "all members equal the head" is a property of the set of members
+  have key : ∀ (t : Ty) (rest : List Ty) (t' : Ty) (rest' : List Ty), (∀ s ∈ t :: rest, s.wf = true) →
+      (∀ s ∈ t' :: rest', s.wf = true) → (∀ s, s ∈ t :: rest ↔ s ∈ t' :: rest') →
+      rest.all (fun s => Ty.equals t s) = true → t' = t ∧ rest'.all (fun s => Ty.equals t' s) = true := by
+    intro t rest t' rest' h1 h2 hm ha
+    have hall : ∀ s ∈ t :: rest, s = t := by
+      intro s hs
+      rcases List.mem_cons.mp hs with rfl | hs'
+      · rfl
+      · have := (List.all_eq_true.mp ha) s hs'
+        exact ((Ty.equals_iff_eq t s (h1 t (by simp)) (h1 s hs)).mp this).symm
+    have ht' : t' = t := hall t' ((hm t').mpr (by simp))
+    refine ⟨ht', ?_⟩
+    rw [List.all_eq_true]; intro s hs
+    have hs' : s ∈ t' :: rest' := by simp [hs]
+    have := hall s ((hm s).mpr hs')
+    rw [this, ht']
+    exact (Ty.equals_iff_eq t t (h1 t (by simp)) (h1 t (by simp))).mpr rfl
+  cases l with
+  | nil => rw [List.nil_perm.mp hnd]
+  | cons t rest =>
+    cases l' with
+    | nil => exact absurd (List.perm_nil.mp hnd) (by simp)
+    | cons t' rest' =>
+      simp only
+      by_cases ha : rest.all (fun s => Ty.equals t s) = true
+      · obtain ⟨ht', ha'⟩ := key t rest t' rest' hwf hwf' (fun s => hnd.mem_iff) ha
+        subst ht'
+        simp only [ha, ha', if_true]
+      · have ha' : ¬ rest'.all (fun s => Ty.equals t' s) = true := by
+          intro ha'
+          exact ha (key t' rest' t rest hwf' hwf (fun s => hnd.mem_iff.symm) ha').2
+        simp [ha, ha']
+
+/-- `cty.MapVal` on keys that stay pairwise different after normalisation, values of representable types: the outcome
+(value, or the inconsistent-types panic) does not depend on the order in which `range` visits the map -/
+theorem mapValN_order_immaterial (ord : List (String × Value) → List (String × Value)) (ho : ConsOrder ord)
+    (norm : String → String) (vals : List (String × Value)) (hd : NormDistinct norm vals)
+    (hw : ∀ kv ∈ vals, kv.2.ty.wf = true) :
+    D06.mapValN norm (keysOf (ord vals)) (valsOf (ord vals)) = D06.mapValN norm (keysOf vals) (valsOf vals) := by
+  have hp : (valsOf (ord vals)).Perm (valsOf vals) := (ho vals).map _
+  have hw' : ∀ w ∈ valsOf (ord vals), w.ty.wf = true := by
+    intro w h
+    simp only [valsOf, List.mem_map] at h
+    obtain ⟨kv, hkv, rfl⟩ := h
+    exact hw kv ((ho vals).mem_iff.mp hkv)
+  have he : (valsOf (ord vals)).isEmpty = (valsOf vals).isEmpty := by
+    have := hp.length_eq
+    cases h1 : valsOf (ord vals) <;> cases h2 : valsOf vals <;> simp_all
+  unfold D06.mapValN
+  rw [MapVal_keys_order_immaterial ord ho norm vals hd, elemTypeOf_perm hp hw', he]
+
+theorem MapVal_order_immaterial (ord ord' : List (String × Value) → List (String × Value)) (ho : ConsOrder ord)
+    (ho' : ConsOrder ord') (norm : String → String) (vals : List (String × Value)) (hd : NormDistinct norm vals)
+    (hw : ∀ kv ∈ vals, kv.2.ty.wf = true) : cls (MapVal ord norm vals) = cls (MapVal ord' norm vals) := by
+  rw [MapVal_eq ord ho, MapVal_eq ord' ho', mapValN_order_immaterial ord ho norm vals hd hw,
+    mapValN_order_immaterial ord' ho' norm vals hd hw]
 
 /-! ### what the `SetVal` tie assumes of its members holds of well-formed values -/
 
